@@ -8,7 +8,13 @@ LEVEL_TEXT = (
     "for every output whose asset list holds in-range entries (lovelace in [0, 2^64), native amounts >= 0) the coin is "
     "exactly the sum of the lovelace entries and, for every asset class, the quantity is exactly the sum of the "
     "entries of that class - nothing dropped, wrapped or moved to another class - and every emitted number fits 64 "
-    "bits (C02_output_exact_partial, C02_output_block_exact); "
+    "bits (C02_output_exact_partial, C02_output_block_exact); from the source: an amount written with asset "
+    "constructors, fees, input names, + and - that denotes a ledger value (nothing negative, lovelace within 64 bits) "
+    "lowers, reduces after the three stages to a list whose entries are inside the ledger ranges, and every output "
+    "block carrying it that compiles holds, of lovelace and of every token, exactly what integer arithmetic gives for "
+    "the expression as written (compile_view, C02_source_to_output); payments p1..pn next to the change "
+    "source - p1 - .. - pn - fees add up, class by class, to the total of the UTxOs assigned to source less the fee "
+    "(C02_balance); "
     "out-of-range values make the model return an error. The two remaining silent alterations (negative lovelace "
     "wraps, negative native asset dropped - both pinned by hashes in the repository's own tests) are proved as "
     "witnesses and reported as known findings. The reducer's checked arithmetic is covered by the L3 correspondence."
@@ -16,14 +22,17 @@ LEVEL_TEXT = (
 LEVEL_NOTE = (
     cc.MODEL_NOTE + ". Partial: exactness of output lovelace/native amounts is proved under the explicit hypothesis EntriesInRange "
     "(the two ways out of it are the known findings C02-lovelace-wraps, C02-negative-asset-dropped, with proved "
-    "witnesses); the balance corollary is checked per case, not proved."
+    "witnesses); the balance is a theorem for the amount fragment of C01_source_to_value (constructors over integer "
+    "expressions, fees, input names, +, -) and checked per case beyond it (AnyAsset, property access, mint and burn)."
 )
 PROP = "C02"
-TARGETS = ["Tx3Proofs.C02", "Tx3Proofs.C02Outputs"]
+TARGETS = ["Tx3Proofs.C02", "Tx3Proofs.C02Outputs", "Tx3Proofs.C02Balance"]
 THEOREMS = ["Tx3.C02_fee_exact", "Tx3.C02_validity_exact", "Tx3.C02_mint_range", "Tx3.C02_withdrawal_exact",
             "Tx3.C02_donation_exact", "Tx3.C02_negative_lovelace_wraps", "Tx3.C02_negative_asset_dropped",
             "Tx3.compileValue_exact", "Tx3.compileValues_exact", "Tx3.assetQty_insertAsset",
-            "Tx3.C02_output_exact_partial", "Tx3.C02_output_block_exact"]
+            "Tx3.C02_output_exact_partial", "Tx3.C02_output_block_exact",
+            "Tx3.view_triples", "Tx3.range_triples", "Tx3.compile_view", "Tx3.den_odd", "Tx3.C02_source_to_output",
+            "Tx3.den_minusAll", "Tx3.C02_balance"]
 ASSUMPTIONS = [cc.MODEL_NOTE,
                "pallas' CBOR encoder is not modelled: its output is read back by the independent Lean reader",
                "spec oracle: expected quantities are computed from the constant template by plain integer arithmetic in the driver"]
